@@ -34,6 +34,7 @@ type cliOpts struct {
 	AgentCloseErr bool  `json:"agent_close_err,omitempty"`
 	MsgSize       []int `json:"msg_size,omitempty"` // per transaction slot, 0 = 20 bytes
 	PoolFanout    bool  `json:"pool_fanout,omitempty"`
+	Reentrant     bool  `json:"reentrant,omitempty"` // handlers call back into the client (Indicate, Start, Close) when they get an error
 	StallWrite    bool  `json:"stall_write,omitempty"` // Write blocks until the connection is closed, then fails (TCP back pressure)
 	MaxAttempts   int   `json:"-"`
 }
@@ -54,6 +55,9 @@ func (e cliEv) String() string {
 		if e.Arg == 2 {
 			return fmt.Sprintf("resp(%c,header only)", 'A'+e.I)
 		}
+		if e.Arg == 3 {
+			return fmt.Sprintf("resp(%c,Data indication)", 'A'+e.I)
+		}
 		return fmt.Sprintf("resp(%c)", 'A'+e.I)
 	case "start", "do", "dup", "overwrite", "indicate":
 		if e.I >= 10 {
@@ -61,9 +65,11 @@ func (e cliEv) String() string {
 		}
 		return fmt.Sprintf("%s(%c)", e.K, 'A'+e.I)
 	case "tick":
-		return "tick(" + []string{"at-deadline", "just-after-deadline", "far"}[e.Arg] + ")"
+		return "tick(" + []string{"at-deadline", "just-after-deadline", "far", "late: deadline+0.3 rto"}[e.Arg] + ")"
 	case "garbage":
-		return "garbage(" + []string{"7 bytes", "bad cookie", "1025 bytes (truncated by the reader)", "attribute overrun"}[e.Arg] + ")"
+		return "garbage(" + []string{"7 bytes", "bad cookie", "1025 bytes (truncated by the reader)", "attribute overrun", "valid header, body cut short"}[e.Arg] + ")"
+	case "failagent":
+		return "failagent(" + []string{"injected error", "ErrTransactionExists"}[e.Arg] + ")"
 	case "setrto":
 		return fmt.Sprintf("setrto(%dms)", e.Arg)
 	}
@@ -102,6 +108,9 @@ func (s cliScenario) String() string {
 	}
 	if s.Opts.StallWrite {
 		o += " stalledWrites"
+	}
+	if s.Opts.Reentrant {
+		o += " reentrantHandlers"
 	}
 	if s.Opts.RTO != 0 {
 		o += fmt.Sprintf(" rto=%v", time.Duration(s.Opts.RTO))
@@ -298,6 +307,7 @@ type vAgent struct {
 	a         *stun.Agent
 	deadlines map[[12]byte]time.Time
 	failStart bool // the next Start fails (a ClientAgent is user-supplied: its Start may return an error)
+	failKind  int
 }
 
 func (a *vAgent) Process(m *stun.Message) error { return a.a.Process(m) }
@@ -312,6 +322,9 @@ func (a *vAgent) Start(id [stun.TransactionIDSize]byte, deadline time.Time) erro
 	if a.failStart {
 		a.failStart = false
 		a.w.agentStartFailed = true
+		if a.failKind == 1 {
+			return stun.ErrTransactionExists // a user-supplied agent may refuse with any error, also this one
+		}
 		return errInjAgentStart
 	}
 	err := a.a.Start(id, deadline)
@@ -358,6 +371,8 @@ func cliID(slot int) (id [12]byte) {
 		id[5] ^= 0x10
 	case 4:
 		id[6] ^= 0x10
+	case 8: // id used by re-entrant handlers
+		id[2] ^= 0xff
 	case 9: // unknown id
 		id[3] ^= 0xff
 	}
@@ -389,6 +404,9 @@ func cliResponseSized(slot int, variant int, size int) []byte {
 	m := new(stun.Message)
 	m.TransactionID = cliID(slot)
 	m.Type = stun.BindingSuccess
+	if size == 3 {
+		m.Type = stun.NewType(stun.MethodData, stun.ClassIndication) // any message with the id belongs to the transaction
+	}
 	m.WriteHeader()
 	if size == 2 {
 		// a header-only response (no attributes): distinct datagrams differ in the two leading type bits only
@@ -421,6 +439,9 @@ func cliGarbage(kind int) []byte {
 		m.WriteHeader()
 		m.Add(stun.AttrData, make([]byte, 1001)) // 20+4+1004 = 1028 > 1024: truncated by the reader => undecodable
 		return append([]byte(nil), m.Raw...)
+	case 4: // a well-formed header that announces more body than the datagram carries (total still below the read buffer)
+		b := cliResponse(0, 97)
+		return b[:len(b)-8]
 	default:
 		b := cliResponse(0, 98)
 		b[23] = 0x7f
@@ -488,6 +509,12 @@ func (w *cliWorld) handlerFor(inst *txInst, idx int) stun.Handler {
 		pos := w.rec(r)
 		inst.HandlerN++
 		inst.HandlerAt = append(inst.HandlerAt, pos)
+		if w.sc.Opts.Reentrant && e.Error != nil {
+			// e.g. a retry-on-failure handler
+			// (not Close: a handler running on the collector's goroutine that calls Close waits for itself, by design)
+			_ = w.client.Indicate(cliRequest(9, 20))
+			_ = w.client.Start(cliRequest(8, 20), func(stun.Event) {})
+		}
 		sched.Point("handler-return", nil)
 		inst.HandlerDone = len(w.log)
 	}
@@ -581,11 +608,14 @@ func (w *cliWorld) do(ev cliEv, quiesce bool) {
 	case "tick":
 		t := w.clock.now
 		switch ev.Arg {
-		case 0, 1:
+		case 0, 1, 3:
 			if d, ok := w.agent.nextDeadline(); ok {
 				t = d
 				if ev.Arg == 1 {
 					t = d.Add(time.Nanosecond)
+				}
+				if ev.Arg == 3 { // a late collector: the deadline passed 0.3 rto ago
+					t = d.Add(w.rtoNow * 3 / 10)
 				}
 			} else {
 				t = t.Add(time.Millisecond)
@@ -599,6 +629,7 @@ func (w *cliWorld) do(ev cliEv, quiesce bool) {
 		w.conn.failNext = true
 	case "failagent":
 		w.agent.failStart = true
+		w.agent.failKind = ev.Arg
 	case "close":
 		sched.Point("invoke", nil)
 		n := w.closeRets
